@@ -158,7 +158,12 @@ class BaseGeo(BaseTransform):
         Object position(s) in the global coordinates in units of m. For m>1, the
         `position` and `orientation` attributes together represent an object path.
         """
-        return np.squeeze(self._position)
+        pos = np.squeeze(self._position)
+        if getattr(self, "_children", None):
+            # a Collection hands out a copy: in-place operations like `coll.position += d`
+            # would otherwise change the path before the setter can move the children along
+            return pos.copy()
+        return pos
 
     @position.setter
     def position(self, inp):
